@@ -64,6 +64,14 @@ def check(run, tier):
                                       weights={"transfer": 4, "distribute": 2, "aspirate": 0, "dispense": 0, "add": 0, "remove": 0},
                                       big_factor=6)
         progs.append(p)
+    # max_volume values whose two-decimal text is larger than the value itself (0.375 -> "0.38", 0.875 -> "0.88"): a full-size
+    # step of an automatically split volume is exactly max_volume and must not be refused for its rounded text
+    r3 = rng("C06-eighths")
+    for i in range(30 if q else 600):
+        dev = "evo" if i % 2 == 0 else "fluent"
+        progs.append(programs.worklist_program(r3, f"C06/e{i}", dev, r3.randint(1, 4), unit=Fraction(1, 8), maxunits=200, wlmax=r3.choice([3, 7, 11, 15]),
+                                               comps=False, small=False, big_factor=6, flags={"records": False, "robot": False},
+                                               weights={"transfer": 5, "distribute": 1, "aspirate": 1, "dispense": 1, "add": 0, "remove": 0}))
     # the worklist's configuration is state: max_volume / auto_split assigned between operations of one worklist object
     r2 = rng("C06-config")
     for dev in ("evo", "fluent"):
